@@ -68,6 +68,99 @@ type Options struct {
 	Values      bool // include attribute values and text
 	RawText     bool // keep text of raw-text elements verbatim (otherwise normalised like other text)
 	KeepDoctype bool
+	// Flow adds, for every element whose children include text or inline-level elements, a
+	// "#flow" entry holding the element's text as a reader sees it: white space collapsed, but
+	// kept where it separates inline content ("a <em>b</em>c" is not "a<em>b</em> c").
+	Flow bool
+}
+
+// inline-level elements (text-level semantics) and inline atoms (replaced content, controls)
+var inlineEl = map[string]bool{"a": true, "abbr": true, "b": true, "bdi": true, "bdo": true, "cite": true, "code": true, "data": true, "dfn": true, "em": true, "i": true, "kbd": true,
+	"mark": true, "q": true, "s": true, "samp": true, "small": true, "span": true, "strong": true, "sub": true, "sup": true, "time": true, "u": true, "var": true, "del": true, "ins": true, "label": true, "font": true, "tt": true, "big": true, "strike": true, "nobr": true}
+var inlineAtom = map[string]bool{"img": true, "input": true, "button": true, "select": true, "svg": true, "math": true, "wbr": true, "textarea": true, "canvas": true, "video": true, "audio": true, "object": true, "embed": true, "iframe": true, "meter": true, "progress": true, "output": true}
+
+// hasInlineContent: some child is text (other than white space) or an inline-level element
+func hasInlineContent(n *html.Node) bool {
+	for c := n.FirstChild; c != nil; c = c.NextSibling {
+		if c.Type == html.TextNode && strings.TrimFunc(c.Data, IsHTMLSpace) != "" {
+			return true
+		}
+		if c.Type == html.ElementNode && c.Namespace == "" && (inlineEl[c.Data] || inlineAtom[c.Data]) {
+			return true
+		}
+	}
+	return false
+}
+
+// FlowText is the text of n as a line of inline content: descendant text in order, inline atoms
+// as a box sign, line breaks and block-level descendants as paragraph signs around which white
+// space does not count; white space runs collapsed to one space, none at the two ends.
+func FlowText(n *html.Node) string {
+	var kids []*html.Node
+	for c := n.FirstChild; c != nil; c = c.NextSibling {
+		kids = append(kids, c)
+	}
+	return FlowNodes(kids)
+}
+
+// FlowNodes is FlowText for a list of sibling nodes (the top level of a fragment).
+func FlowNodes(nodes []*html.Node) string {
+	var b strings.Builder
+	var walk func(n *html.Node)
+	var visit func(c *html.Node)
+	brk := func(sign string) {
+		s := strings.TrimRight(b.String(), " ")
+		b.Reset()
+		b.WriteString(s)
+		b.WriteString(sign)
+	}
+	walk = func(n *html.Node) {
+		for c := n.FirstChild; c != nil; c = c.NextSibling {
+			visit(c)
+		}
+	}
+	visit = func(c *html.Node) {
+		{
+			switch c.Type {
+			case html.TextNode:
+				for _, r := range c.Data {
+					if IsHTMLSpace(r) {
+						cur := b.String()
+						if cur == "" || strings.HasSuffix(cur, " ") || strings.HasSuffix(cur, "\u00b6") {
+							continue
+						}
+						b.WriteByte(' ')
+						continue
+					}
+					b.WriteRune(r)
+				}
+			case html.ElementNode:
+				switch {
+				case c.Namespace == "" && inlineEl[c.Data]:
+					walk(c)
+				case c.Namespace == "" && inlineAtom[c.Data] || c.Namespace != "":
+					b.WriteString("\u25a3")
+				case c.Data == "br":
+					brk("\u00b6")
+				case c.Data == "script" || c.Data == "style" || c.Data == "template":
+					// not rendered
+				default:
+					brk("\u00b6")
+					walk(c)
+					brk("\u00b6")
+				}
+			}
+		}
+	}
+	for _, c := range nodes {
+		visit(c)
+	}
+	out := strings.TrimRight(b.String(), " ")
+	// paragraph signs at the two ends, and runs of them, carry nothing
+	for strings.Contains(out, "\u00b6\u00b6") {
+		out = strings.ReplaceAll(out, "\u00b6\u00b6", "\u00b6")
+	}
+	return strings.Trim(out, "\u00b6")
 }
 
 var rawText = map[string]bool{"script": true, "style": true, "textarea": true, "title": true}
@@ -98,6 +191,9 @@ func Project(nodes []*html.Node, o Options) []El {
 			}
 			sort.Slice(e.Attrs, func(i, j int) bool { return e.Attrs[i][0] < e.Attrs[j][0] })
 			out = append(out, e)
+			if o.Flow && o.Values && pre == 0 && n.Namespace == "" && !inlineEl[n.Data] && !inlineAtom[n.Data] && !rawText[n.Data] && n.Data != "pre" && hasInlineContent(n) {
+				out = append(out, El{Depth: d + 1, Tag: "#flow", Text: FlowText(n)})
+			}
 			for c := n.FirstChild; c != nil; c = c.NextSibling {
 				walk(c, d+1, n.Data)
 			}
@@ -137,6 +233,21 @@ func Project(nodes []*html.Node, o Options) []El {
 			for c := n.FirstChild; c != nil; c = c.NextSibling {
 				walk(c, d, "")
 			}
+		}
+	}
+	if o.Flow && o.Values {
+		// (a top level where text stands next to block elements is left out: how such text is laid
+		// out around the blocks is not constrained)
+		top, blocks := false, false
+		for _, n := range nodes {
+			if n.Type == html.TextNode && strings.TrimFunc(n.Data, IsHTMLSpace) != "" || n.Type == html.ElementNode && n.Namespace == "" && (inlineEl[n.Data] || inlineAtom[n.Data]) {
+				top = true
+			} else if n.Type == html.ElementNode {
+				blocks = true
+			}
+		}
+		if top && !blocks {
+			out = append(out, El{Depth: 0, Tag: "#flow", Text: FlowNodes(nodes)})
 		}
 	}
 	for _, n := range nodes {
